@@ -99,7 +99,18 @@ func c07Loop(e *Env, f *ssa.Function) {
 		x, y := stripCastCalls(cmp.X), stripCastCalls(cmp.Y)
 		isLen := func(v ssa.Value) bool {
 			c, ok := v.(*ssa.Call)
-			return ok && core.CalleeName(c) == "bytes.Buffer.Len"
+			if ok && core.CalleeName(c) == "bytes.Buffer.Len" {
+				return true
+			}
+			// len(buffer.Bytes()) – possibly through a helper's parameter
+			if ok {
+				if b, isB := c.Call.Value.(*ssa.Builtin); isB && b.Name() == "len" && len(c.Call.Args) == 1 {
+					if bc, isC := core.Resolve(c.Call.Args[0]).(*ssa.Call); isC && core.CalleeName(bc) == "bytes.Buffer.Bytes" {
+						return true
+					}
+				}
+			}
+			return false
 		}
 		switch {
 		case isFieldLoad(x, "MessageLength") && isFieldLoad(y, "maxMessageSize") && (cmp.Op == token.GTR || cmp.Op == token.GEQ):
@@ -122,13 +133,18 @@ func c07Loop(e *Env, f *ssa.Function) {
 				"the MessageLength > maxMessageSize test dominates the 'buffer shorter than the frame ⇒ wait' exit", "an oversized header can reach the wait-for-more-bytes exit before the size limit is applied: the oversized body would be buffered")
 			e.R.Check(core.Dominates(oversize, decodes[0].(ssa.Instruction)) && core.Dominates(incomplete, decodes[0].(ssa.Instruction)), rule, "tcp/client.Session.processBuffer:checks-before-decode", e.pos(decodes[0].(ssa.Instruction)),
 				"both checks dominate the decode", "the decode is reachable without the size/completeness checks")
-			k := 1
-			if oversizeBranch {
-				k = 0
-			}
-			blk := oversize.Block().Succs[k]
-			ret, isRet := blk.Instrs[len(blk.Instrs)-1].(*ssa.Return)
-			e.R.Check(isRet && core.ReturnsNonNilError(ret), rule, "tcp/client.Session.processBuffer:limit-returns-error", e.pos(oversize), "the oversize edge returns a non-nil error immediately", "the oversize edge does not return an error immediately")
+			// on the oversize edge every way out is an error return, and neither the decode nor a consuming call is reached
+			ovIf, ovBr := oversize, oversizeBranch
+			q := &core.PathQuery{Fn: f, From: ovIf,
+				EdgeOK: func(x *ssa.If, br bool) bool { return x != ovIf || br == ovBr },
+				Target: func(in ssa.Instruction) bool {
+					if ret, isRet := in.(*ssa.Return); isRet {
+						return core.IsNilConst(core.RetVal(ret, len(ret.Results)-1))
+					}
+					return in == decodes[0].(ssa.Instruction)
+				}}
+			w := q.Find()
+			e.R.Check(w == nil, rule, "tcp/client.Session.processBuffer:limit-returns-error", e.pos(oversize), "the oversize edge leads only to error returns", "the oversize edge does not end in an error: "+e.trace(w))
 		}
 	}
 	if e.want("C07.R2") && incomplete != nil {
@@ -152,7 +168,7 @@ func c07Loop(e *Env, f *ssa.Function) {
 		rule := "C07.R3"
 		arg := core.Arg(decodes[0], 2)
 		sl, isSl := arg.(*ssa.Slice)
-		ok := isSl && sl.Low == nil && sl.High != nil && isFieldLoad(sl.High, "MessageLength")
+		ok := isSl && sl.Low == nil && sl.High != nil && isFieldLoad(core.Resolve(sl.High), "MessageLength")
 		if ok {
 			c, isCall := sl.X.(*ssa.Call)
 			ok = isCall && core.CalleeName(c) == "bytes.Buffer.Bytes"
@@ -184,12 +200,28 @@ func c07Loop(e *Env, f *ssa.Function) {
 			if !isG || g.Name() != "ErrShortRead" {
 				continue
 			}
-			k := 0
-			if neg {
-				k = 1
-			}
-			blk := i.Block().Succs[k]
-			if ret, isRet := blk.Instrs[len(blk.Instrs)-1].(*ssa.Return); isRet && core.IsNilConst(core.RetVal(ret, 0)) {
+			// on the short-read edge the only way out is `return nil`, without decoding or consuming anything
+			srIf, srBr := i, !neg
+			reachesNilReturn := false
+			q := &core.PathQuery{Fn: f, From: srIf,
+				EdgeOK: func(x *ssa.If, br bool) bool { return x != srIf || br == srBr },
+				Target: func(in ssa.Instruction) bool {
+					if ret, isRet := in.(*ssa.Return); isRet {
+						if core.IsNilConst(core.RetVal(ret, len(ret.Results)-1)) {
+							reachesNilReturn = true
+							return false
+						}
+						return true
+					}
+					if cc, isC := in.(*ssa.Call); isC {
+						switch core.CalleeName(cc) {
+						case "message/pool.Message.UnmarshalWithDecoder", "tcp/client.seekBufferToNextMessage", "bytes.Buffer.Next", "bytes.Buffer.Reset", "bytes.Buffer.Truncate":
+							return true
+						}
+					}
+					return false
+				}}
+			if q.Find() == nil && reachesNilReturn {
 				ok = true
 			}
 		}
